@@ -81,6 +81,9 @@ Supported(r, a, t) ==
   \* as implemented: the generated extern "C" wrapper has no `self`, so a borrowed return next to a
   \* borrowed argument needs explicit lifetimes in the trait (elision is ambiguous): outside the grammar
   /\ (Borrowing(t) => ~ArgBorrows(a))
+  \* as implemented: with an unwrapped associated type in the argument list the generated wrapper is generic over
+  \* CGlueAItem without a `CGlueAItem: 'a` bound, so a return borrowed from `self` does not compile (E0311): outside the grammar
+  /\ (Borrowing(t) => a \notin {"aval", "aref", "aslice", "aopt", "ares"})
 
 Defs == {[recv |-> r, arg |-> a, ret |-> t, ir |-> ir] :
            r \in Recvs, a \in ArgShapes, t \in RetShapes, ir \in BOOLEAN}
